@@ -104,8 +104,10 @@ class Partial(Value):
 class Obj(Value):
     """instance of a class defined under /repo/src/furax, concrete class, fields possibly symbolic"""
     _ids = itertools.count(1)
+    _live: list = []          # instances created on the current path (reset by run.explore)
 
     def __init__(self, cls, tag=None):
+        Obj._live.append(self)
         self.cls = cls
         self.fields: dict = {}
         self.id = next(Obj._ids)
